@@ -1,5 +1,7 @@
 # coding: utf-8
 """C02 — a plasmid has no origin: typing and assembly are rotation-invariant."""
+EXTRA_OBLIGATION_FILES = ("Props/C04_src.v", "Props/C03_src.v",)
+
 from harness import common, gens, pattern
 from harness.props import C03
 
@@ -75,7 +77,21 @@ def typing_subjects(ctx, per_kit=1, per_enzyme=1, parts=20):
             x = gens.gen_vector(rng, enz, up, down, rng.randrange(2, 9), rng.randrange(0, 8))
         if x:
             out.append(({"kind": "part", "role": role, "enzyme": enz["name"], "sig": sig}, x["seq"], "part"))
-    return out
+    # a lone further recognition site (either strand, any case) in the part of the plasmid the structure does
+    # not cover: the verdict must not depend on where the origin falls relative to it
+    kit_enz = {c["name"]: c["cutter"] for c in ctx.tables["classes"] if c.get("cutter")}
+    planted = []
+    for spec, seq, tag in out:
+        if tag == "part" or rng.random() < (0.6 if tag == "kit" else 0.0):
+            continue
+        enz = kit_enz.get(spec.get("name")) if spec["kind"] == "kit" else enzymes.get(spec.get("enzyme"))
+        if enz is None:
+            continue
+        site = rng.choice([enz["site"], gens.rc(enz["site"])])
+        site = rng.choice([site, site.lower(), site])
+        planted.append((spec, seq + gens.rand_dna(rng, rng.randrange(0, 3)) + site + gens.rand_dna(rng, rng.randrange(1, 4)),
+                        tag + "+backbone-site"))
+    return out + planted
 
 
 # ------------------------------------------------------------ worker side
